@@ -66,6 +66,9 @@ def check_rebuild(rec: Rec, cc, bban):
 
 
 def replay(rec, case):
+    if case["input"].get("origin") == "configurations":
+        from ._configs import replay as _r
+        return _r(rec, case)
     from random import Random
     from ..lib import IBAN
     i = case["input"]
@@ -186,5 +189,7 @@ def run(ctx):
     ctx.pmap(shard_rebuild, [(cc, ctx.seed, ctx.tier) for cc in with_pos])
     ctx.extra["generate_success"] = {cc: ctx.rec.classes.get(f"generate-success-{cc}", 0) for cc in onat.FIELD}
     ctx.extra["random_success"] = {cc: ctx.rec.classes.get(f"random-success-{cc}", 0) for cc in onat.FIELD}
+    from ._configs import stage as _config_stage
+    _config_stage(ctx, ['national', 'generate'])
     ctx.require_classes("from_components-ncd-ok", "generate-ok", "random-ok", "rebuild-rich", "rebuild",
                         *[f"random-success-{cc}" for cc in onat.FIELD])
